@@ -184,10 +184,18 @@ static int fragments_needed_one_data_local(xor_code_t *code_desc,
   int *missing_data = get_missing_data(code_desc, fragments_to_exclude);
   int *missing_parity = get_missing_parity(code_desc, fragments_to_exclude);
   int parity_index = index_of_connected_parity(code_desc, fragment_to_reconstruct, missing_parity, missing_data);
+  unsigned int excluded_data_bm = missing_elements_bm(code_desc, missing_data, data_bit_lookup);
   free(missing_data);
   free(missing_parity);
 
   if (parity_index < 0) {
+    return -1;
+  }
+
+  // The equation must not need another excluded data element; let the
+  // caller fall back to the general path otherwise
+  excluded_data_bm &= ~((unsigned int)1 << fragment_to_reconstruct);
+  if (code_desc->parity_bms[parity_index-code_desc->k] & excluded_data_bm) {
     return -1;
   }
 
